@@ -7,6 +7,7 @@ import (
 	"strconv"
 	"time"
 
+	"github.com/jirenius/go-res/verifhook"
 	nats "github.com/nats-io/nats.go"
 )
 
@@ -140,8 +141,10 @@ func (qe *queryEvent) startQueryListener() {
 	for {
 		select {
 		case m := <-qe.ch:
+			verifhook.Gate("query-recv")
 			qe.forward(m)
 		case <-qe.done:
+			verifhook.Gate("query-done")
 			for {
 				select {
 				case m := <-qe.ch:
@@ -154,6 +157,7 @@ func (qe *queryEvent) startQueryListener() {
 			qe.r.s.runWith(qe.r.Group(), func() {
 				qe.cb(nil)
 			})
+			verifhook.Note("query-listener-exit", qe.r.rname, 0)
 			return
 		}
 	}
